@@ -152,3 +152,125 @@ func signedLifecycle(t *testing.T, rep *kit.Report, env kit.Env) {
 	rep.Add(evals, nontrivial, int64(len(states)), transitions)
 	rep.Outcome(fmt.Sprintf("signed-session: %d histories", evals))
 }
+
+// Encrypted end-to-end frames across events on the receiving session that must
+// not reopen the replay window while the keys stay the same: the start of a new
+// key exchange on the live session (as the link setup of a peer does), the
+// session cleaner, and clearing the encryption session (after which nothing may
+// be accepted any more).
+func encryptedLifecycle(t *testing.T, rep *kit.Report, env kit.Env) {
+	depth := 4
+	if env.Thorough() {
+		depth = 5
+	}
+	alphabet := []string{"r0", "r1", "p0", "p1", "kx-client-start", "idle-61s+cleaner", "reset-encryption"}
+	k := len(alphabet)
+	word := make([]int, depth)
+	var evals, nontrivial, transitions int64
+	n := 0
+	for {
+		n++
+		if env.Mine(n) {
+			var names []string
+			for _, w := range word {
+				names = append(names, alphabet[w])
+			}
+			synctest.Test(t, func(t *testing.T) {
+				a, _ := kit.NewNode(kit.NodeOpts{Name: "A", ID: pool[0], StateOnly: true})
+				b, _ := kit.NewNode(kit.NodeOpts{Name: "B", ID: pool[1], StateOnly: true})
+				if err := kit.KeySessions(a, b); err != nil {
+					panic(err)
+				}
+				sa := a.State().GetSession(b.Identity().IP)
+				frames := map[string][]byte{}
+				for _, name := range []string{"r0", "r1", "p0", "p1"} {
+					mt := frame.NetworkTraffic
+					if name[0] == 'p' {
+						mt = frame.RouterCtrl
+					}
+					f, err := a.FrameBuilder().NewFrameV1(a.Identity().IP, b.Identity().IP, mt, nil, []byte("enc-"+name), nil)
+					if err != nil {
+						panic(err)
+					}
+					if err := f.Seal(sa); err != nil {
+						panic(err)
+					}
+					d, _ := f.FrameDataWithMargins(0, 0)
+					frames[name] = append([]byte(nil), d...)
+					f.ReturnToPool()
+				}
+				accepted := map[string]bool{}
+				keysGone := false
+				var since []string
+				nt := false
+				for step, w := range word {
+					ev := alphabet[w]
+					transitions++
+					switch ev {
+					case "kx-client-start":
+						if sb := b.State().GetSession(a.Identity().IP); sb != nil && sb.Encryption() != nil {
+							_, _, _ = sb.Encryption().InitKeyClientStart()
+						}
+						since = append(since, ev)
+					case "idle-61s+cleaner":
+						time.Sleep(61 * time.Second)
+						b.State().VerifCleanSessions()
+						since = append(since, ev)
+					case "reset-encryption":
+						_ = b.State().SetEncryptionSession(a.Identity().IP, nil)
+						keysGone = true
+						since = append(since, ev)
+					default:
+						sb := b.State().GetSession(a.Identity().IP)
+						fr, err := b.FrameBuilder().ParseFrame(append([]byte(nil), frames[ev]...), nil, 0)
+						if err != nil {
+							panic(err)
+						}
+						got := sb != nil && fr.Unseal(sb) == nil
+						if accepted[ev] {
+							nt = true
+						}
+						switch {
+						case got && accepted[ev]:
+							u := map[string]bool{}
+							for _, s := range since {
+								u[s] = true
+							}
+							var l []string
+							for s := range u {
+								l = append(l, s)
+							}
+							sort.Strings(l)
+							rep.Violate("encrypted-session/accepted-twice/after:"+strings.Join(l, "+"), fmt.Sprintf("encrypted frame %s accepted a second time; history=%v", ev, names[:step+1]), map[string]any{"layer": "encrypted-session", "history": names[:step+1]})
+						case got && keysGone:
+							rep.Violate("encrypted-session/accepted-without-keys", fmt.Sprintf("encrypted frame %s accepted after the encryption session was cleared; history=%v", ev, names[:step+1]), names[:step+1])
+						case !got && !accepted[ev] && !keysGone:
+							rep.Violate("encrypted-session/fresh-frame-rejected", fmt.Sprintf("encrypted frame %s rejected on first delivery although the keys are in place; history=%v", ev, names[:step+1]), names[:step+1])
+						}
+						if got {
+							accepted[ev] = true
+						}
+					}
+				}
+				evals++
+				if nt {
+					nontrivial++
+				}
+			})
+		}
+		p := depth - 1
+		for p >= 0 {
+			word[p]++
+			if word[p] < k {
+				break
+			}
+			word[p] = 0
+			p--
+		}
+		if p < 0 {
+			break
+		}
+	}
+	rep.Add(evals, nontrivial, 0, transitions)
+	rep.Outcome(fmt.Sprintf("encrypted-session: %d histories", evals))
+}
